@@ -131,7 +131,7 @@ func flString(fl []flEnt) string {
 
 func imgWrFamilies(c *hx.Ctx) {
 	r := hx.NewRng(c.Seed*104729 + 5)
-	n := c.N(8, 48)
+	n := c.N(8, 24)
 	for i := 0; i < n; i++ {
 		id := fmt.Sprintf("d/imgwr/%d", i)
 		rr := r.Fork()
